@@ -18,7 +18,7 @@ CHECKS = {
          "payload producer is the reference sender; frames of a live server cannot be merged across its wait points; one known finding (message lost when a write failure wins the race); frames up to 2^24-1 bytes are accepted since the repair",
          "DESIGN.md §5 C17"),
  "C05": ("bounded-exhaustive enumeration of hostile file lists (escape vector x entry type x options x destination state x receiver role x solicited/unsolicited data) sent by a scripted sender to the real receiver; full before/after snapshot of everything around the destination plus information-flow checks",
-         "11 escape vectors (dot-dot forms, absolute, pre-existing relative/absolute directory symlinks, pre-existing file symlink, symlink sent earlier in the same list, '..' itself) x 7 entry types x {-a,-rlD,-a --delete} x {empty, populated} x {pulling client, writable daemon module}, with file data also pushed unsolicited, and 11 hostile sub-directory arguments of daemon uploads: the surrounding canary area (content, mode, owner, ns mtime, targets, entry set) must be bit-identical and no canary block checksum or byte may appear in requests or destination files",
+         "11 escape vectors (dot-dot forms, absolute, pre-existing relative/absolute directory symlinks, pre-existing file symlink, symlink sent earlier in the same list, '..' itself) x 7 entry types x {-a,-rlD,-a --delete} x {empty, populated} x {pulling client, writable daemon module}, with file data also pushed unsolicited, and 20 hostile sub-directory arguments of daemon uploads (incl. a sibling directory whose path starts with the module's path): the surrounding canary area (content, mode, owner, ns mtime, targets, entry set) must be bit-identical and no canary block checksum or byte may appear in requests or destination files",
          "runs as root so that misdirected chown/mknod would succeed; relative escapes are caught by running each case with the destination as working directory; single-call regressions that another os.Root-guarded call in the same path shields are not observable (defence in depth)",
          "DESIGN.md §5 C05"),
  "C06": ("bounded-exhaustive enumeration of request paths from a traversal grammar x options x module kinds against the real daemon with a scripted receiving client that also requests every index; raw stream scan for outside markers plus entry-by-entry comparison with the inside inventory",
@@ -96,14 +96,14 @@ EXTRA = {
  "C05": "Added: 8 vectors whose hostile entry lies several levels below the escaping component with unlisted parents.",
  "C07": "Added: part histories = one long-lived Server with a read-only module sharing its directory with a writable one; uploads to read-only modules after 0/1/2 rounds of legitimate uploads.",
  "C10": "Added: names sorting between a directory and its contents next to missing / wrong-type directories, deeper levels below them.",
- "C20": "Added: daemon-side option tokens (--gokr.modulemap, --gokr.config) in the exec grammar; every greeted session is asked for its module list and for a module it must not have.",
- "C08": "Added: every pair of deviations inside one checksum header; complete frames of 13 lengths (0..2^24-1) x 8 tags x 4 positions against the client; part vanishing (client drops the connection after N bytes of a 24 MiB download, canonical pull follows at once).",
- "C09": "Added: names that sort between a directory and its contents (d-old, d.bak/), identity (inode) of listed up-to-date entries, directory-only rules (b/, z/), non-recursive -d transfers, and sources named without trailing slash with siblings next to the transferred directory.",
- "C12": "Added: part repeat = whole sessions run twice over boundary mtimes in 5 arrangements x 6 option sets (second run must leave every entry the same file system object), the -c rule with the real sender's list checksums for sizes 0..1 MiB, sparse up-to-date files of 2^31-1..5 GiB.",
+ "C20": "Added: daemon-side option tokens (--gokr.modulemap, --gokr.config) in the exec grammar; every greeted session is asked for its module list and for a module it must not have; ordered pairs of authentication attempts (key offered without proof, then a signed key) on one connection.",
+ "C08": "Added: every pair of deviations inside one checksum header; complete frames of 13 lengths (0..2^24-1) x 8 tags x 4 positions against the client; part vanishing (client drops the connection after N bytes of a 24 MiB download, canonical pull follows at once); shape upload-delta (echoed checksum header and block references against a copy the module holds), module reset before every hostile session.",
+ "C09": "Added: anchored and path exclude rules for both source forms. Added: names that sort between a directory and its contents (d-old, d.bak/), identity (inode) of listed up-to-date entries, directory-only rules (b/, z/), non-recursive -d transfers, and sources named without trailing slash with siblings next to the transferred directory.",
+ "C12": "Added: part repeat = whole sessions run twice over boundary mtimes in 5 arrangements x 6 option sets (second run must leave every entry the same file system object), the -c rule with the real sender's list checksums for sizes 0..1 MiB, sparse up-to-date files of 2^31-1..5 GiB; all syncs of the histories part run in one directory (long-lived server).",
  "C13": "Added: part shapes = rule lists over trailing-slash, leading-slash and path rules: refused or exactly the denoted selection.",
  "C14": "Added: option sets with -d instead of -r and with neither.",
  "C15": "Added: numbering with names that sort before '.' next to the '.' entry, and with duplicate names in both directions.",
- "C16": "Added: part long-runs = inserted/replaced/prepended runs of 256 KiB-1 .. 768 KiB+2B+1 around the sender's flush threshold, one or two per file; deletions of 1/2, 1/3, 3/5, 9/10 of the file with the real generator.",
+ "C16": "Added: part long-runs = inserted/replaced/prepended runs of 256 KiB-1 .. 768 KiB+2B+1 around the sender's flush threshold, one or two per file; deletions of 1/2, 1/3, 3/5, 9/10 of the file with the real generator; part multi = several files through the delta path of one session.",
  "C18": "Added: part aborted = a 24 MiB download dropped by the peer mid-file followed at once by 4 concurrent ordinary downloads, under the race detector.",
  "C19": "Added: part neighbours = three prefix-named modules with their own rule lists on one server, asked in rotating order; nested networks sharing their network address.",
 }
